@@ -240,3 +240,20 @@ Proof. intros H b. rewrite H. apply decode_ignores_trailing_cr. Qed.
    directly (MQTT, tests) decodes like the delivered "line" *)
 Lemma decode_ignores_trailing_nl (l : pstr) : decode (l ++ [nl]) = decode l.
 Proof. unfold decode. rewrite (rstrip_snoc_space isspace l nl isspace_nl). reflexivity. Qed.
+
+(* ---------------------------------------------------------------- generated constants *)
+From PMS Require Gen.FramingConsts.
+
+Lemma generated_facts :
+  FramingConsts.terminator = nl /\ (N.to_nat FramingConsts.recv_size <> 0)%nat /\
+  (FramingConsts.encoding_is_utf8 && FramingConsts.unicode_handling_is_replace &&
+   FramingConsts.packetizer_body_as_modelled && FramingConsts.handle_line_adds_logic_job &&
+   FramingConsts.sync_add_job_appends && FramingConsts.async_add_job_runs_then_sends &&
+   FramingConsts.poll_queue_sends_run_job && FramingConsts.run_job_pops_left_and_calls &&
+   FramingConsts.send_drops_empty_message && FramingConsts.nested_jobs_only_produce_strings) = true.
+Proof. vm_compute. repeat split; discriminate. Qed.
+
+Theorem tcp_recv_chunking dec s :
+  feed FramingConsts.terminator dec proto_init (chunks_of (N.to_nat FramingConsts.recv_size) s) =
+  (mkProto (tail_of FramingConsts.terminator s), map dec (complete_lines FramingConsts.terminator s)).
+Proof. apply recv_chunking_is_a_segmentation. apply generated_facts. Qed.
